@@ -1036,6 +1036,9 @@ int main(int argc, char** argv) {
     else if (t[0] == "M" && t.size() >= 3) {
       calc_mod_cmd(t);
     }
+    else if (t[0] == "K") {
+      dump_consts();
+    }
     else if (t[0] == "T") {
       dump_tables(t.size() > 1 ? size_t(atoi(t[1].c_str())) : 8);
     }
